@@ -177,6 +177,23 @@ func genClose(r rng, seed uint64, id string) *sdl.Program {
 		p.Instances = append(p.Instances, &sdl.Instance{ID: fmt.Sprintf("c%d", ni), Type: t.Name})
 		ni++
 	}
+	// a post-processor replaces one closer by an object of another type that has no Close()
+	if r.p(0.2) {
+		var victim *sdl.Instance
+		other := ""
+		for _, i := range p.Instances {
+			t := p.TypeByName(i.Type)
+			if t.Role == "closer" && !t.Zero && victim == nil {
+				victim = i
+			}
+			if t.Role == "" && !t.Zero {
+				other = t.Name
+			}
+		}
+		if victim != nil && other != "" {
+			p.Procs = append(p.Procs, &sdl.Proc{ID: "pp0", Class: "plain", Rules: []*sdl.Rule{{Target: victim.ID, At: sdl.CbAfter, Action: "substitute", Sub: "s0", SubType: other}}})
+		}
+	}
 	return p
 }
 
@@ -659,6 +676,10 @@ func genWrapName(r rng, seed uint64, id string) *sdl.Program {
 		p.Types = append(p.Types, o)
 		p.Instances = append(p.Instances, &sdl.Instance{ID: "c2", Type: o.Name})
 		h.Points = append(h.Points, &sdl.Point{Field: "F1", Kind: sdl.KIface, Iface: 2, Sel: sdl.SelType})
+	}
+	if r.p(0.5) {
+		// a by-type point that fits the component itself but not its wrapper
+		h.Points = append(h.Points, &sdl.Point{Field: "F2", Kind: sdl.KPtr, Target: x.Name, Sel: sdl.SelType, Optional: r.p(0.6)})
 	}
 	at := pick(r, []string{sdl.CbAfter, sdl.CbAfter, sdl.CbBefore, sdl.CbBeforeInst})
 	class := "plain"
